@@ -125,7 +125,10 @@ def trace_part(chk, n_seg, n_file):
         return dl, pairs
 
     def to_codes(s):
-        return list(s.encode(fcsgen.ENC))
+        # one code per character: for text decoded as ISO-8859-1 this is the byte; anything else the reader may hand
+        # back (a replacement character, a multi-byte sequence decoded as one character) keeps its own code and
+        # cannot match the written bytes
+        return [ord(c) for c in s]
 
     def proj_dict(d):
         return [[to_codes(k), to_codes(v)] for k, v in d.items()]
